@@ -532,3 +532,13 @@ Definition hist_convert (fuel : nat) (te : tenv) (attach : bool) (tname : str) (
       Ok (GPtr (Some loc), (heap st2, (if attach then [(id, loc)] else []) ++ nsh ++ sh))
     end
   end.
+
+(* callgo.go:CallGoMethodFunction, the RECEIVER of (_method obj M: ..): converted by (togo obj) only when no
+   shadow struct is attached yet (GoShadowStructVa invalid and !ShadowSet); otherwise the attached object is
+   used as it is.  A failed conversion attaches nothing (toGoHelper sets the shadow after success). *)
+Definition hist_receiver (fuel : nat) (te : tenv) (tname : str) (id : Z) (r : sx)
+           (h : list goval) (sh : shadows) : res (goval * (list goval * shadows)) :=
+  match shadow_find id sh with
+  | Some loc => Ok (GPtr (Some loc), (h, sh))
+  | None => hist_convert fuel te true tname id r h sh
+  end.
